@@ -31,6 +31,9 @@ def run(rep, idx, tier):
     rep.require("C12.2", 6)
     rep.require("C12.3", 5)
     rep.require("C12.4", 3)
+    rep.require("C12.5", 3)
+    from . import glue
+    glue.reset_discipline(rep, "C12.5", idx, ["csr/action:RW", "csr/action:RW1C", "csr/action:RW1S"])
 
     # ---- storage actions -------------------------------------------------------------------
     for cname, kind in (("RW", "rw"), ("RW1C", "w1c"), ("RW1S", "w1s")):
